@@ -127,8 +127,13 @@ def run_case(case, obs):
         names = list(net.constraint_index)
         wit = dict(ops=log[-12:], stations=ids)
         if names != order:
-            obs.violate("constraint_names", f"after {tag}: index {names} expected {order}", **wit)
-            return False
+            if sorted(names) != sorted(order) or len(set(names)) != len(names):
+                obs.violate("constraint_names", f"after {tag}: index {names} expected {order}", **wit)
+                return False
+            # the same constraints listed in another order (where an updated row goes is not promised): rows, limits and queries
+            # are judged by NAME below, so the model simply follows the network's listing
+            obs.ev("constraint_listing_order_differs_from_insertion_order")
+            order[:] = names
         mags = np.asarray(net.magnitudes, dtype=float)
         if len(mags) != len(names):
             obs.violate("limits_length", f"after {tag}: {len(mags)} limits for {len(names)} names", **wit)
@@ -198,8 +203,10 @@ def run_case(case, obs):
                     net.update_constraint(f"nope{cnt}", _Cur({ids[0]: 1}), 12.5)
                 obs.violate("invalid_operation_accepted", f"{kind} did not raise", ops=log[-6:])
                 return
-            except KeyError:
-                obs.ev("op:refused_" + kind)
+            except Exception as e_:
+                obs.ev("op:refused_" + kind)  # refused; the error class is the library's choice
+                if not isinstance(e_, KeyError):
+                    obs.ev("op:refused_with_other_error:" + type(e_).__name__)
             cnt += 1
             if not check(log[-1][0]):
                 return
@@ -305,7 +312,9 @@ def run_case(case, obs):
             obs.ev("op:update_rename" if new else "op:update")
         else:
             log.append(["register"])
-            if model or net.constraint_matrix is not None:
+            if not model and net.constraint_matrix is not None:
+                obs.ev("op:register_skipped_after_all_constraints_removed")  # neither allowed nor forbidden by the statement
+            elif model:
                 before = (list(net.station_ids), dict(net.voltages), dict(net.phase_angles))
                 newid = "zz" if rng.random() < 0.5 else rng.choice(ids)
                 try:
@@ -313,7 +322,7 @@ def run_case(case, obs):
                     obs.violate("register_after_constraints_allowed", f"register_evse({newid!r}) succeeded although constraints exist "
                                 f"({'an already registered id' if newid in ids else 'a new id'})", ops=log[-6:])
                     return
-                except EVSERegistrationError:
+                except Exception:
                     obs.ev("op:register_refused" if newid == "zz" else "op:register_refused_existing_id")
                 after = (list(net.station_ids), dict(net.voltages), dict(net.phase_angles))
                 if before != after:
